@@ -180,7 +180,7 @@ def dump_one(f: TextIO, data: IOData, atom_columns=None):
         atom_columns = DEFAULT_ATOM_COLUMNS
     # Write the header
     print(data.natom, file=f)
-    print(data.title or "Created with IOData", file=f)
+    print("Created with IOData" if data.title is None else data.title, file=f)
     # Write the atom lines
     for iatom in range(data.natom):
         words = []
